@@ -584,7 +584,10 @@ class SCCWriter(BaseWriter):
     def _layout_line(caption):
         caption_text = "".join(caption.get_text_nodes())
         inner_lines = caption_text.split("\n")
-        inner_lines_laid_out = [textwrap.fill(x, 32) for x in inner_lines]
+        # break lines at spaces only (not after hyphens inside a word)
+        inner_lines_laid_out = [
+            textwrap.fill(x, 32, break_on_hyphens=False) for x in inner_lines
+        ]
         return "\n".join(inner_lines_laid_out)
 
     @staticmethod
